@@ -224,7 +224,7 @@ META = {
     "ready": True,
     "category": "proof",
     "technique": "Rocq inductive invariants over hand-written executable models (system stop composed with the C09 stop protocol and the C06 lifecycle) + population conformance on real actor systems",
-    "text": "Fourteen theorems over a model of ActorSystem.Stop composed from the C09 stop protocol (user guardian subtree), a grain component (poisonAllGrains, user PoisonPills) and the shutting-down gate, with C06's lifecycle model for the handler view: PostStop at most once per user actor (every interleaving); once userGuardian.Shutdown returned every actor along the children snapshots has completed PostStop, children before parents (every interleaving for the repaired freeChildren, race-free executions before), and EVERY user actor whose spawn has returned — anywhere below the guardian, by the spawn relation — has completed PostStop when no SpawnChild is in flight at a children snapshot (C17_every_user_actor_stopped); OnDeactivate at most once per activation always and exactly once by the time Stop is through; sends while the gate is closed are never enqueued and sends to stopped actors fail after Stop; refutation witnesses for a handler outliving Stop and for a SpawnChild in flight during Stop (open findings). Every run: generated populations (trees, grains, traffic, a held handler, an in-flight SpawnChild) on real actor systems, Stop, observation after every driver action compared with the Coq model (vm_compute), the gate probe, and the property's own oracle on the recorded events.",
+    "text": "Fourteen theorems over a model of ActorSystem.Stop composed from the C09 stop protocol (user guardian subtree), a grain component (poisonAllGrains, user PoisonPills) and the shutting-down gate, with C06's lifecycle model for the handler view: PostStop at most once per user actor (every interleaving); once userGuardian.Shutdown returned every actor along the children snapshots has completed PostStop, children before parents (every interleaving for the repaired freeChildren, race-free executions before), and EVERY user actor whose spawn has returned — anywhere below the guardian, by the spawn relation — has completed PostStop when no SpawnChild is in flight at a children snapshot (C17_every_user_actor_stopped); OnDeactivate at most once per activation always and exactly once by the time Stop is through; sends while the gate is closed are never enqueued and sends to stopped actors fail after Stop; refutation witnesses for a handler outliving Stop and for a SpawnChild in flight during Stop (open findings). Every run: generated populations (trees, grains, traffic, a held handler, an in-flight SpawnChild) on real actor systems, Stop, observation after every driver action compared with the Coq model (vm_compute), the gate probe, and the property's own oracle on the recorded events. Scenarios also hold individual stops inside PostStop while Stop runs (DKill/DRelease), let a grain passivate (OnDeactivate held) while Stop runs, and leave a backlog queued behind a held handler: PostStop/OnDeactivate at most once, nothing deactivated after Stop returned, at most one handler start after Stop returned.",
     "design_ref": "DESIGN.md 7/C17",
     "level_note": "Trusted: Coq kernel, the hand-written models (tied each run; tree protocol and lifecycle also by C09/C06), Go runtime between driver actions. Not modelled: grain activation in flight during Stop, cluster/remoting shutdown.",
 }
